@@ -593,3 +593,274 @@ package cron
 //@   tags C08
 //@   requires pl.logger != nil
 //@   modifies nothing
+
+// ==== C05: the scheduler (cron.go) ================================================================================
+// tzero(t): t is the zero Time (what IsZero reports); unixNano(t): the instant (libspec sort_cron.spec / strings_time.spec).
+// due(t, now): an activation instant that the clock has reached: not the zero time ("no activation") and t <= now.
+//@ pure func due(t smt:S$time.Time, now smt:S$time.Time) bool = !tzero(t) && unixNano(t) <= unixNano(now)
+// before(a, b): the order byTime.Less sorts by (zero times last)
+//@ pure func before(a smt:S$time.Time, b smt:S$time.Time) bool = !tzero(a) && (tzero(b) || unixNano(a) < unixNano(b))
+// kept(el, off, n, ids, id): how many of the first n elements of the slice (backing array el, offset off) carry an ID other than id
+//@ pure func kept(el [int]int, off int, n int, ids [int]int, id int) int = n <= 0 ? 0 : (kept(el, off, n - 1, ids, id) + (ids[el[off + n - 1]] != id ? 1 : 0))
+
+// cdistinct: the slice elements are pairwise different objects (absolute indices into the backing array)
+//@ pure func cdistinct(el [int]int, off int, n int) bool = forall i, j :: (off <= i && i < j && j < off + n) ==> el[i] != el[j]
+
+//@ type Entry
+//@   sent [C05.entry.sent] self != nil && self.Schedule != nil && self.WrappedJob != nil
+
+//@ type Cron
+//@   lock runningMu protects running nextID
+//@   rely runningMu [C05.ids.monotone] old(self.nextID) < 9223372036854775807 ==> old(self.nextID) <= self.nextID
+//@   invariant [nonnil] forall k :: 0 <= k && k < len(self.entries) ==> (self.entries[k] != nil && self.entries[k].Schedule != nil && self.entries[k].WrappedJob != nil)
+//@   invariant [cfg] self.logger != nil && self.clk != nil && self.location != nil
+
+// -- interfaces implemented by the user --
+//@ func (Schedule).Next
+//@   skip
+//@   params s t
+//@   pure
+//@   ensures tzero(result) || unixNano(result) > unixNano(t)
+//@ func (Job).Run
+//@   skip
+//@ func (Logger).Info
+//@   skip
+//@   pure
+//@ func functype github.com/dapr/kit/cron.JobWrapper
+//@   skip
+//@   params j
+//@   pure
+//@   ensures j != nil ==> result != nil
+
+//@ func (Chain).Then
+//@   tags C05
+//@   requires forall k :: 0 <= k && k < len(c.wrappers) ==> c.wrappers[k] != nil
+//@   modifies nothing
+//@   ensures [C05.chain.nonnil] j != nil ==> result != nil
+//@   loop 0 invariant -1 <= rangeindex && rangeindex < len(c.wrappers) && (old(j) != nil ==> j != nil)
+
+//@ func (byTime).Len
+//@   tags C05
+//@   modifies nothing
+//@   ensures [C05.bytime.len] result == len(s)
+
+//@ func (byTime).Swap
+//@   tags C05
+//@   requires 0 <= i && i < len(s) && 0 <= j && j < len(s)
+//@   modifies s[i], s[j]
+//@   ensures [C05.bytime.swap] s[i] == old(s[j]) && s[j] == old(s[i])
+
+//@ func (byTime).Less
+//@   tags C05
+//@   requires 0 <= i && i < len(s) && 0 <= j && j < len(s) && s[i] != nil && s[j] != nil
+//@   modifies nothing
+//@   ensures [C05.bytime.less] result == before(*s[i].Next, *s[j].Next)
+
+//@ func (*Cron).now
+//@   tags C05
+//@   requires c != nil && c.clk != nil && c.location != nil
+//@   modifies nothing
+
+// engine limitation: a slice of struct values ([]Entry) has no SMT sort (see REPORT): body not verified
+//@ func (*Cron).entrySnapshot
+//@   tags C05
+//@   skip
+//@   requires c != nil && (forall k :: 0 <= k && k < len(c.entries) ==> c.entries[k] != nil)
+//@   modifies nothing
+//@   ensures [C05.snapshot.fresh] fresh(result)
+//@   ensures [C05.snapshot.len] len(result) == len(c.entries)
+
+//@ func (*Cron).removeEntry
+//@   tags C05
+//@   requires c != nil && (forall k :: 0 <= k && k < len(c.entries) ==> c.entries[k] != nil)
+//@   modifies c.entries
+//@   ensures [C05.remove.gone] forall k :: 0 <= k && k < len(c.entries) ==> (c.entries[k] != nil && c.entries[k].ID != id)
+//@   ensures [C05.remove.count] len(c.entries) == old(kept(region(c.entries), c.entries.off, len(c.entries), fieldmap(c.entries[0].ID), id))
+//@   ensures [C05.remove.subset] forall k :: 0 <= k && k < len(c.entries) ==> (exists j :: 0 <= j && j < old(len(c.entries)) && old(c.entries[j]) == c.entries[k])
+//@   loop 0 invariant -1 <= rangeindex && rangeindex < len(c.entries) && c.entries == old(c.entries) && (entries == nil || fresh(entries))
+//@   loop 0 invariant [C05.remove.count.inv] len(entries) == kept(region(c.entries), c.entries.off, rangeindex + 1, fieldmap(c.entries[0].ID), id)
+//@   loop 0 invariant [C05.remove.gone.inv] forall k :: 0 <= k && k < len(entries) ==> (entries[k] != nil && entries[k].ID != id)
+//@   loop 0 invariant forall k :: 0 <= k && k < len(entries) ==> (exists j :: 0 <= j && j <= rangeindex && c.entries[j] == entries[k])
+
+// startJob: the job is counted in jobWaiter BEFORE the goroutine exists; the goroutine runs exactly that job, once, and
+// reports Done after the job has returned (deferred).
+//@ func (*Cron).startJob
+//@   tags C05
+//@   requires c != nil && j != nil
+//@   modifies nothing
+//@   ghost added bool
+//@   at entry ghost added = false
+//@   at call Add#0 assert [C05.start.add] arg0 == c.jobWaiter && arg1 == 1
+//@   at call Add#0 ghost added = true
+//@   at before go#0 assert [C05.start.counted] added
+
+//@ func (*Cron).startJob$1
+//@   tags C05
+//@   opt go=detached
+//@   requires c != nil && j != nil
+//@   ghost ran int
+//@   ghost reported int
+//@   at entry ghost ran = 0
+//@   at entry ghost reported = 0
+//@   at before call Run#0 assert [C05.job.thejob] arg0 == j && ran == 0
+//@   at every call Run ghost ran = ran + 1
+//@   at before call Done#0 assert [C05.job.doneafter] ran == 1 && arg0 == c.jobWaiter
+//@   at every call Done ghost reported = reported + 1
+//@   at return assert [C05.job.once] ran == 1 && reported == 1
+
+// Stop: the stop signal is sent only to a running scheduler and `running` is cleared under runningMu; the context
+// returned is the one whose cancel function is handed to the waiting goroutine, which calls it only after
+// jobWaiter.Wait() has returned.
+//@ func (*Cron).Stop
+//@   tags C05
+//@   requires c != nil
+//@   modifies c.running
+// go=ignore: the state is not havocked at the go statement: what the postconditions mention (running, nextID) is protected
+// by runningMu, which Stop holds until after the go statement, and the spawned goroutine (Stop$1: modifies nothing) does not touch it.
+//@   opt go=ignore
+//@   ghost gctx iface
+//@   ghost signalled bool
+//@   at entry ghost signalled = false
+//@   at call Lock#0 label L
+//@   at before call Unlock#0 label U
+//@   at every before send assert [C05.stop.signal] arg0 == c.stop && at(L, c.running) && held(c.runningMu)
+//@   at every send ghost signalled = true
+//@   at call WithCancel#0 ghost gctx = res0
+//@   at before go#0 assert [C05.stop.canceller] cancel != nil
+//@   ensures [C05.stop.sent] at(L, c.running) ==> signalled
+//@   ensures [C05.stop.notrunning] !at(U, c.running)
+//@   ensures [C05.stop.ctx] result == gctx && result != nil
+
+//@ func (*Cron).Stop$1
+//@   tags C05
+//@   requires c != nil && cancel != nil
+//@   modifies nothing
+//@   ghost waited bool
+//@   at entry ghost waited = false
+//@   at call Wait#0 assert [C05.stop.waiter] arg0 == c.jobWaiter
+//@   at call Wait#0 ghost waited = true
+//@   at every before call CancelFunc assert [C05.stop.waits] waited
+
+// Schedule: a new id (previous nextID + 1, so ids are strictly increasing: [C05.ids.monotone]); not running: the entry is
+// appended directly, under runningMu; running: it is handed to the scheduler goroutine over c.add.
+//@ func (*Cron).Schedule
+//@   tags C05
+//@   requires c != nil && schedule != nil && cmd != nil && inv(c)
+//@   requires forall k :: 0 <= k && k < len(c.chain.wrappers) ==> c.chain.wrappers[k] != nil
+//@   at call Lock#0 label L
+//@   at before call Unlock#0 label U
+//@   ensures [C05.schedule.id] at(L, c.nextID) < 9223372036854775807 ==> (result == at(L, c.nextID) + 1 && at(U, c.nextID) == result)
+//@   at every before send assert [C05.schedule.handoff] arg0 == c.add && at(L, c.running) && held(c.runningMu) && arg1.ID == c.nextID && arg1.Schedule == schedule && arg1.Job == cmd && fresh(arg1)
+//@   at every store entries assert [C05.schedule.direct] !at(L, c.running) && held(c.runningMu) && len(c.entries) == at(L, len(c.entries)) + 1 && c.entries[len(c.entries) - 1].ID == c.nextID && c.entries[len(c.entries) - 1].Schedule == schedule && fresh(c.entries[len(c.entries) - 1])
+//@        && (forall k :: 0 <= k && k < at(L, len(c.entries)) ==> c.entries[k] == at(L, c.entries[k]))
+//@   ensures [C05.schedule.wf] !at(L, c.running) ==> invonly(c, "nonnil")
+
+// Remove: not running: exactly the entries with that id go, under runningMu (removeEntry's contract); running: the id
+// is handed to the scheduler goroutine.
+//@ func (*Cron).Remove
+//@   tags C05
+//@   requires c != nil && inv(c)
+//@   at call Lock#0 label L
+//@   at every before send assert [C05.remove.handoff] arg0 == c.remove && arg1 == id && at(L, c.running) && held(c.runningMu)
+//@   at every before call removeEntry assert [C05.remove.direct] !at(L, c.running) && held(c.runningMu) && arg1 == id
+//@   ensures [C05.remove.done] !at(L, c.running) ==> (forall k :: 0 <= k && k < len(c.entries) ==> (c.entries[k] != nil && c.entries[k].ID != id))
+
+//@ func (*Cron).Start
+//@   tags C05
+// go=ignore: running / nextID are protected by runningMu, held across the go statement; the scheduler goroutine never touches them
+//@   opt go=ignore
+//@   requires c != nil && inv(c)
+//@   at call Lock#0 label L
+//@   at before go#0 assert [C05.start.once] !at(L, c.running) && c.running && held(c.runningMu)
+
+//@ func (*Cron).Run
+//@   tags C05
+//@   requires c != nil && inv(c)
+//@   at call Lock#0 label L
+//@   at before call run#0 assert [C05.run.once] !at(L, c.running)
+
+// run: the scheduler goroutine. Ghosts: woke = the case chosen by the last select is the timer channel; started[e] = how
+// often startJob was called for entry e; st0 = started at the last select; sincesel = startJob calls since the last select;
+// stopseen = the last select chose c.stop. Label W = the last select. "D" below is the hypothesis that the entries are
+// pairwise distinct objects (see REPORT: established by Schedule, kept by sort.Sort; its preservation by removeEntry is not
+// machine-checked).
+//@ func (*Cron).run
+//@   tags C05
+//@   opt go=detached
+//@   requires c != nil && inv(c)
+//@   ghost woke bool
+//@   ghost stopseen bool
+//@   ghost started [int]int
+//@   ghost st0 [int]int
+//@   ghost sincesel int
+//@   ghost gd int
+//@   ghost gsnap slice
+//@   ghost clkread bool
+//@   ghost gclk int
+//@   at entry ghost woke = false
+//@   at entry ghost stopseen = false
+//@   at entry ghost sincesel = 0
+//@   loop 1 invariant -1 <= rangeindex && rangeindex < len(c.entries) && inv(c) && !woke && sincesel == 0
+//@   loop 0 invariant inv(c)
+//@   loop 0 invariant [C05.wake.once] (woke && cdistinct(region(c.entries), c.entries.off, len(c.entries))) ==> (forall j :: 0 <= j && j < len(c.entries) ==> (started[c.entries[j]] == st0[c.entries[j]] || (started[c.entries[j]] == st0[c.entries[j]] + 1 && due(*c.entries[j].Prev, now))))
+//@   at call Sort#0 ghost woke = false
+//@   loop 2 invariant inv(c) && !woke
+//@   loop 2 invariant (len(c.entries) == 0 || tzero(*c.entries[0].Next)) <==> timer == nil
+//@   loop 2 invariant [C05.run.sorted] forall i, j :: 0 <= i && i < j && j < len(c.entries) ==> !before(*c.entries[j].Next, *c.entries[i].Next)
+//@   at call Sub#0 assert [C05.timer.first] arg0 == *c.entries[0].Next && unixNano(arg1) == unixNano(now)
+//@   at call Sub#0 assert [C05.timer.nonzero] !tzero(*c.entries[0].Next)
+//@   at call Sub#0 assert [C05.timer.earliest] forall j :: 0 < j && j < len(c.entries) ==> !before(*c.entries[j].Next, *c.entries[0].Next)
+//@   at call Sub#0 ghost gd = res0
+//@   at before call NewTimer#0 assert [C05.timer.armed] arg1 == gd
+//@   at select#0 label W
+//@   at select#0 assert [C05.run.listens] selblocking && selcases == 5 && selhas(c.add) && selhas(c.remove) && selhas(c.snapshot) && selhas(c.stop) && selhas(timerCh) && (forall ch :: !selhassend(ch))
+//@   at select#0 assert [C05.timer.sleep] (len(c.entries) == 0 || tzero(*c.entries[0].Next)) <==> timer == nil
+//@   at select#0 ghost woke = false
+//@   at call In#0 ghost woke = true
+//@   at select#0 ghost stopseen = (res0 >= 0 && !selsend && selchan == c.stop)
+//@   at select#0 ghost sincesel = 0
+//@   at select#0 ghost st0 = started
+//@   loop 3 invariant -1 <= rangeindex && rangeindex < len(c.entries) && inv(c) && woke
+//@   loop 3 invariant forall j :: 0 <= j && j <= rangeindex ==> !due(*c.entries[j].Next, now)
+//@   loop 3 invariant cdistinct(region(c.entries), c.entries.off, len(c.entries)) ==> (forall j :: rangeindex < j && j < len(c.entries) ==> started[c.entries[j]] == st0[c.entries[j]])
+//@   loop 3 invariant cdistinct(region(c.entries), c.entries.off, len(c.entries)) ==> (forall j :: 0 <= j && j <= rangeindex ==> (started[c.entries[j]] == st0[c.entries[j]] + 1 && due(*c.entries[j].Prev, now)))
+// "never before that instant": a job is started only from a wake-up, for an entry whose activation instant is not the zero
+// time and not after the `now` of this wake-up, and it is that entry's wrapped job
+//@   at before call startJob#0 assert [C05.start.notearly] woke && due(*e.Next, now) && arg1 == e.WrappedJob
+//@   at call startJob#0 ghost started = update(started, e, started[e] + 1)
+//@   at every call startJob ghost sincesel = sincesel + 1
+//@   at every before call startJob assert [C05.start.onlywake] woke
+// "never twice for the same one": in the same wake-up Prev becomes the activation just served and Next the schedule's next
+// activation after `now` (strictly later, or none)
+//@   at store Prev#0 assert [C05.wake.prev] *e.Prev == *e.Next
+//@   at call Next#1 assert [C05.wake.advance] arg0 == e.Schedule && unixNano(arg1) == unixNano(now)
+//@   at store Next#1 assert [C05.wake.next] !due(*e.Next, now)
+// add: Next from the current clock, appended, nothing started, the others untouched
+//@   at select#0 ghost clkread = false
+//@   at call now#1 ghost clkread = true
+//@   at call now#1 ghost gclk = unixNano(res0)
+//@   at call Next#2 assert [C05.add.clock] clkread && unixNano(arg1) == gclk
+//@   at call Next#2 assert [C05.add.next] arg0 == newEntry.Schedule && unixNano(arg1) == unixNano(now) && sincesel == 0
+//@   at store entries#0 assert [C05.add.appended] len(c.entries) == at(W, len(c.entries)) + 1 && c.entries[len(c.entries) - 1] == newEntry && (forall k :: 0 <= k && k < len(c.entries) - 1 ==> c.entries[k] == at(W, c.entries[k]))
+// remove / snapshot / stop
+//@   at before call removeEntry#0 assert [C05.rm.id] arg1 == id && sincesel == 0
+//@   at call entrySnapshot#0 ghost gsnap = res0
+//@   at before send#0 assert [C05.snap.reply] arg0 == replyChan && arg1 == gsnap && sincesel == 0
+//@   at return assert [C05.run.stop] stopseen && sincesel == 0
+
+// Entries: not running: the snapshot is taken directly, under runningMu; running: a reply channel (capacity 1) is handed
+// to the scheduler goroutine and what comes back on it is returned unchanged.
+//@ func (*Cron).Entries
+//@   tags C05
+//@   requires c != nil && inv(c)
+//@   ghost greply int
+//@   ghost grecv slice
+//@   ghost asked bool
+//@   at entry ghost asked = false
+//@   at call Lock#0 label L
+//@   at every before send assert [C05.entries.ask] arg0 == c.snapshot && cap(arg1) == 1 && fresh(arg1) && at(L, c.running) && held(c.runningMu)
+//@   at every send ghost greply = arg1
+//@   at every send ghost asked = true
+//@   at every recv assert [C05.entries.reply] asked && arg0 == greply
+//@   at every before call entrySnapshot assert [C05.entries.direct] !at(L, c.running) && held(c.runningMu)
+//@   ensures [C05.entries.direct.len] !at(L, c.running) ==> len(result) == len(c.entries)
